@@ -469,7 +469,7 @@ pub fn run() {
         ctx.finish();
     }
     let quick = ctx.quick();
-    let depth = if quick { 7 } else { 10 };
+    let depth = if quick { 8 } else { 11 };
     let found = std::sync::Mutex::new(BTreeMap::<String, (u64, Vec<(String, String)>)>::new());
     let init = Node { m: Machine::new(MachineConfig::default()), hist: vec![], clean: true };
     let _ = &init.hist;
